@@ -76,6 +76,16 @@ def stepKV (p : Prog) : List String → Prog × String
     | some k => match p.store.delete k p.env with
       | .error pe => onPanic p pe
       | .ok (s, e) => ({ p with store := s, env := e }, fin p.env e "ok")
+  | ["lset", n, k, v] => match n.toNat?, unhex k, unhex v with
+    | some n, some k, some v => match p.store.under n (fun s e => s.set k v e) p.env with
+      | .error pe => onPanic p pe
+      | .ok (s, e) => ({ p with store := s, env := e }, fin p.env e "ok")
+    | _, _, _ => (p, "bad-op")
+  | ["ldel", n, k] => match n.toNat?, unhex k with
+    | some n, some k => match p.store.under n (fun s e => s.delete k e) p.env with
+      | .error pe => onPanic p pe
+      | .ok (s, e) => ({ p with store := s, env := e }, fin p.env e "ok")
+    | _, _ => (p, "bad-op")
   | ["write"] => match p.store.write p.env with
     | .error pe => onPanic p pe
     | .ok (s, e) => ({ p with store := s, env := e }, fin p.env e "ok")
